@@ -82,8 +82,7 @@ def check_case(case):
         if m[0] != "nop" and len(m) >= 2 and m[1] != ag:
             raise pddl.Invalid("slot i holds an action of agent i (or a parameterless action)")
     members = [m for m in slots if m[0] != "nop"]
-    if not members:
-        raise pddl.Invalid("at least one member")
+    # (no member at all - every agent idles - is a joint action too: the state must come back unchanged)
     st = unjstate(case["state"])
     ok, domain = parse_domain(dom)
     if not ok:
@@ -245,6 +244,8 @@ def gen(ch, tier):
     world = pddl.World(dom, objects)
     st = G.gen_state(ch, world, density=ch.choice([0.5, 0.8]))
     slots = gen_joint(ch, dom, objects, world, st)
+    if ch.flag(0.04):
+        slots = [["nop"] for _ in slots]          # the first step already has every agent idling
     case = {"dom": dom, "objects": objects, "state": jstate(st), "slots": slots}
     if ch.flag(0.3):
         case["second"] = gen_joint(ch, dom, objects, world, st, prefer_applicable=False)
